@@ -116,6 +116,8 @@ def programs_task(family, texts, inputs, budget=B):
             st.inc('inconclusive', inc)
             st.add('kinds', o0.kind + ':' + o0.status)
             st.add('outputs', o0.out[:64])
+            if len(st.samples) < 3 and len(text) < 200:
+                st.sample({'prog': text, 'stdin': inp, 'level0': '%s %s' % (o0.kind, o0.status), 'stdout': o0.out[:40].decode('utf-8', 'replace')})
             for lv, klass, exp, obs in bad:
                 st.violate(Violation('C02', 'optdiff', '%s:L%d:%s' % (family, lv, klass),
                                      {'kind': 'optdiff', 'prog': text, 'stdin': inp, 'level': lv}, exp, obs))
